@@ -1,6 +1,7 @@
 import ParryModel.Proto
 import ParryModel.C06.Walk
 import ParryModel.C06.Glue
+import ParryModel.C06.Walk2
 /-!
 C06 protocol handler `hfwalk3`: the trace of the cell walk of the 3-D height-field shape cast (which cells are handed to
 `hit_triangles`), model at `Float` against the real function run with a recording dispatcher, and an exact-`Rat` oracle
@@ -13,6 +14,7 @@ out:  `none` | `cells n i j i j …`
 -/
 namespace C06
 open Model Model.SC Model.HW Model.SG Proto
+open Model.HW2 (HF2)
 
 def quantF : Quant Float := ⟨fun x => (Float.floor x).toInt64.toInt, fun x => (Float.ceil x).toInt64.toInt, Float.ofInt⟩
 def quantQ : Quant Rat := ⟨Rat.floor, Rat.ceil, fun i => (i : Rat)⟩
@@ -111,6 +113,73 @@ def walkOracle (a : WArgs) (out : List String) : String :=
       match due.filter (fun c => !tr.contains c) with
       | [] => if due.isEmpty ∧ tr.isEmpty then "pass" else s!"pass"
       | c :: _ => s!"fail entered-cell-never-tested cell={c.1},{c.2} (of {due.length} due, {tr.length} tested)"
+  | _ => "fail unparsable-output"
+
+/-! ### `hfwalk2`: the trace of the 2-D height-field cast
+args: `nh h_0 … h_{nh-1} sx sy nrem idx…  <iso2 pos12>  vx vy  hex hey  max_toi target`  (the `hf` token of the end-to-end
+families without its tag; shape 2 is a cuboid);  out: `cells n 0 j 0 j …` (row index 0, as the harness reports segments) -/
+
+structure W2Args where
+  hs : List Float
+  sc : V2 Float
+  rem : List Nat
+  m : Iso2 Float
+  v : V2 Float
+  he : V2 Float
+  mx : Float
+  tg : Float
+
+def pw2args : P W2Args := do
+  let hs ← plist pf; let sc ← pv2; let rem ← plist pnat; let m ← piso2; let v ← pv2; let he ← pv2
+  let mx ← pf; let tg ← pf; pure ⟨hs, sc, rem, m, v, he, mx, tg⟩
+
+def loosened2 {K} [Num K] (a : Aabb2 K) (m : K) : Aabb2 K := ⟨a.mins.add ⟨-m, -m⟩, a.maxs.add ⟨m, m⟩⟩
+
+def walk2Model (a : W2Args) : String :=
+  let h : HF2 Float := ⟨a.hs.length - 1, a.sc, a.rem⟩
+  let b := loosened2 (cuboidAabb2 a.he a.m) a.tg
+  match HW2.walk quantF h b a.v a.mx (h.n + 2) with
+  | none => "fuel-exhausted"
+  | some out => fcells (out.map fun j => ((0 : Int), j))
+
+/-- exact oracle of `hfwalk2`: every existing segment whose bounding box the moving loosened box (brute force over the four
+corners of the posed cuboid) overlaps by more than `eps` on both axes at a common time in `[0, max]` must be in the trace;
+every traced index is an existing segment. -/
+def walk2Oracle (a : W2Args) (out : List String) : String :=
+  let fin := ([a.sc.x, a.sc.y, a.mx, a.tg, a.v.x, a.v.y, a.m.t.x, a.m.t.y, a.m.re, a.m.im, a.he.x, a.he.y] ++ a.hs).all FloatIO.isFinite
+  if !fin then "skip non-finite-args" else
+  let sc := q2 a.sc
+  let n := a.hs.length - 1
+  if sc.x ≤ 0 ∨ sc.y ≤ 0 ∨ a.hs.length < 2 ∨ q a.tg < 0 ∨ q a.mx < 0 then "skip outside-domain" else
+  let M := qiso2 a.m
+  let he := q2 a.he
+  let corners : List (V2 Rat) := [(1 : Rat), -1].flatMap fun sx => [(1 : Rat), -1].map fun sy => M.act ⟨sx * he.x, sy * he.y⟩
+  let c0 := M.act ⟨0, 0⟩
+  let mn (f : V2 Rat → Rat) := corners.foldl (fun m p => if f p < m then f p else m) (f c0) - q a.tg
+  let mxx (f : V2 Rat → Rat) := corners.foldl (fun m p => if m < f p then f p else m) (f c0) + q a.tg
+  let v := q2 a.v
+  let scale := rabs sc.x + rabs sc.y + rabs c0.x + rabs c0.y + 1
+  let eps := scale / 100000000
+  let X (j : Int) : Rat := (-(1 : Rat) / 2 + (j : Rat) / (n : Rat)) * sc.x
+  let hq : Array Rat := (a.hs.map q).toArray
+  let due : List (Int × Int) := (List.range n).filterMap fun (j' : Nat) =>
+    if a.rem.contains j' then none else
+    let j : Int := j'
+    let y0 := hq[j']! * sc.y; let y1 := hq[j' + 1]! * sc.y
+    let tx := overlapTimes (mn (·.x)) (mxx (·.x)) v.x (X j) (X (j + 1)) eps
+    -- the segment's own vertical range, widened by 2 eps so that a flat segment still has an interior
+    let ty := overlapTimes (mn (·.y)) (mxx (·.y)) v.y (min y0 y1 - 2 * eps) (max y0 y1 + 2 * eps) eps
+    if meet3 [tx, ty] 0 (q a.mx) then some (0, j) else none
+  match out with
+  | "panic" :: _ => "fail panic"
+  | "cells" :: rest =>
+    match run pcells rest with
+    | none => "fail unparsable-output"
+    | some tr =>
+      if tr.any (fun c => c.1 ≠ 0 ∨ c.2 < 0 ∨ c.2 ≥ n ∨ a.rem.contains c.2.toNat) then "fail traced-segment-does-not-exist" else
+      match due.filter (fun c => !tr.contains c) with
+      | [] => "pass"
+      | c :: _ => s!"fail entered-cell-never-tested cell={c.2} (of {due.length} due, {tr.length} tested)"
   | _ => "fail unparsable-output"
 
 /-! ### `smsm3` / `smsm2`: the exit conditions of the GJK-route cast
@@ -214,6 +283,11 @@ def handlerW (fn : String) : Option Handler :=
       model := fun a => (run pwargs a).map walkModel
       oracle := fun a out => match run pwargs a with
         | some w => walkOracle w out
+        | none => "skip bad-args" }
+  | "hfwalk2" => some {
+      model := fun a => (run pw2args a).map walk2Model
+      oracle := fun a out => match run pw2args a with
+        | some w => walk2Oracle w out
         | none => "skip bad-args" }
   | _ => none
 
